@@ -1200,6 +1200,10 @@ class C16(Prop):
 
     def mutate_around(self, case, rng, n):
         out = []
+        # a case made of texts of hundreds of KB (nesting / member-count boundaries) is not copied 150 times: the model
+        # alone would need more than its time limit for them
+        if sum(len(l) for l in case.lines) > 100000:
+            n = max(3, n // 30)
         for i in range(n):
             lines = [l for l in case.lines if rng.chance(4, 5) or l == "rm"]
             out.append(E.Case("m%d" % i, lines))
